@@ -24,7 +24,12 @@ pub fn run(tier: Tier) -> i32 {
     for ls in &locale_sets {
         for m in inherits_maps(ls) {
             let nontrivial = m.iter().any(|(_, v)| *v != ls[0]);
-            let (p, n) = build_project(ls, &m);
+            let (mut p, n) = build_project(ls, &m);
+            // the declared order of the locales is not part of the data: rotate through every permutation (the
+            // default first, in the middle, last)
+            let perms = permutations(ls.len());
+            let perm = &perms[jobs.len() % perms.len()];
+            p.cfg.locales = Some(perm.iter().map(|k| ls[*k].to_string()).collect());
             jobs.push((p, n, nontrivial));
         }
     }
@@ -46,7 +51,7 @@ pub fn run(tier: Tier) -> i32 {
         }
     }
     let mut cov = serde_json::Map::new();
-    cov.insert("rule".into(), json!("for each locale set, every map non-default locale -> {none | any locale incl. itself and the default}; one project per map holding one key per (value kind in str/interp/range/plural) x (presence pattern defined/null/absent per non-default locale), one subkey group per combination of 11 group states per locale (absent, null, sub with each subkey defined/null/absent), and a depth-3 group; every key is compared in every locale: DefaultedLocales::compute() vs the chain walk, and the rendered text (self-identifying tags); evaluations = key x locale pairs; distinct_nontrivial = keys of maps with a non-default target"));
+    cov.insert("rule".into(), json!("for each locale set (declared in every order, rotating with the map index: the default first, in the middle, last), every map non-default locale -> {none | any locale incl. itself and the default}; one project per map holding one key per (value kind in str/interp/range/plural) x (presence pattern defined/null/absent per non-default locale), one subkey group per combination of 11 group states per locale (absent, null, sub with each subkey defined/null/absent), and a depth-3 group; every key is compared in every locale: DefaultedLocales::compute() vs the chain walk, and the rendered text (self-identifying tags); evaluations = key x locale pairs; distinct_nontrivial = keys of maps with a non-default target"));
     cov.insert("exhaustive".into(), json!(true));
     cov.insert("bound".into(), json!({"locale_sets": locale_sets}));
     cov.insert("key_locale_comparisons".into(), json!(*keys_total.lock().unwrap()));
